@@ -337,7 +337,38 @@ func c14History(r *ev.Run, p *prng.R, batch, hi int) {
 		// injected notifications that must fail to apply and must not produce events for the failed row
 		if p.Chance(1, 6) {
 			us := sortedKeys(st)
-			switch p.Intn(5) {
+			switch p.Intn(6) {
+			case 5:
+				// one notification with several new rows and, among them, an insert of a uuid
+				// the cache already holds: that row fails to apply, rows visited before it are
+				// applied (which ones depends on the library's iteration order, so the cache
+				// is asked afterwards) and each applied row must have its event
+				if len(us) > 0 {
+					st2 := st.clone()
+					var fresh []string
+					for k := 2 + p.Intn(4); k > 0; k-- {
+						u := p.UUID()
+						st2[u] = c.randRow(p)
+						fresh = append(fresh, u)
+					}
+					if c.legal(st2) {
+						used["fail:one-row-of-a-multi-row-notification"] = true
+						tu := ovsdb.TableUpdate2{us[p.Intn(len(us))]: &ovsdb.RowUpdate2{Insert: fullWire(c.randRow(p))}}
+						for _, u := range fresh {
+							tu[u] = &ovsdb.RowUpdate2{Insert: fullWire(st2[u])}
+						}
+						_ = tc.Populate2(ovsdb.TableUpdates2{"T": tu})
+						applied := 0
+						for _, u := range fresh {
+							if tc.Table("T").Row(u) != nil {
+								st[u] = st2[u]
+								applied++
+							}
+						}
+						expectedEvents += applied
+						r.Count("rows_applied_before_a_failing_row", applied)
+					}
+				}
 			case 4:
 				// RFC 'update' with old and new for a row the cache does not hold (a monitor
 				// whose set-up failed after the server had registered it keeps notifying)
